@@ -113,6 +113,28 @@ def from_saved_field(f, place, depth=0):
     return False
 
 
+def fallible(fx, g):
+    return fx.tys(g.sig[-1]).startswith(("std::result::Result<", "core::result::Result<"))
+
+
+def ok_edge_of_try(fx, f, bi, t):
+    """a fallible scope-entering helper installs only when it succeeds (its own failing exits are checked to restore): for
+    `let (..) = self.enter(..)?` the installation is the Continue edge of the `?`, not the call"""
+    g = fx.fns.get(t[1].get("d"))
+    if g is None or not fallible(fx, g) or t[3][1]:
+        return bi
+    res = t[3][0]
+    for b2, t2 in f.calls():
+        if "ops::Try" in (t2[1].get("d") or "") and (t2[1].get("d") or "").endswith("branch") and t2[2] and t2[2][0][0] in ("c", "m") and t2[2][0][1][0] == res \
+                and t2[4] is not None and t2[4] >= 0:
+            sw = f.blocks[t2[4]]["t"]
+            if sw[0] == "switch":
+                cont = next((x for v, x in sw[2] if v == "0"), None)
+                if cont is not None:
+                    return cont
+    return bi
+
+
 def analyse(fx, f, field="env"):
     """returns (installs, restores, handoffs, saved) with block indices"""
     saved = saved_locals(f, field, fx)
@@ -121,7 +143,7 @@ def analyse(fx, f, field="env"):
     helpers = scope_entering_helpers(fx, field)
     for bi, t in f.calls():
         if t[1].get("d") in helpers and f.path not in helpers:
-            installs.append((bi, t[6]))
+            installs.append((ok_edge_of_try(fx, f, bi, t), t[6]))
     for bi, bl in enumerate(f.blocks):
         if bl["c"]:
             continue  # unwind (cleanup) copies of the assignment
